@@ -172,7 +172,7 @@ pub fn check_spec(id: &str) -> Option<CheckSpec> {
         lane("cache/bounded/loader+listener", cache(|p| { p.bounded = true; p.loader = true; p.listener = true; }), 30_000, 900_000),
         lane("cache/unbounded/no-faults", cache(|p| p.faults = false), 20_000, 600_000),
         lane("cache/loader/invalidate-race", cache(|p| { p.loader = true; p.loader_race = true; }), 30_000, 900_000),
-        lane("cache/hist/exact-model", crate::cache::hist::HistFamily { snapshots: true, faults: true }, 10_000, 1_000_000),
+        lane("cache/hist/exact-model", crate::cache::hist::HistFamily { snapshots: true, faults: true, stale_focus: false }, 10_000, 1_000_000),
       ],
       assumptions: CACHE_ASSUME.iter().map(|s| s.to_string()).collect(),
       notes: vec!["per-key oracle: a read may return only a value of its own key whose write was invoked before the read returned and that was not definitely overwritten/removed (an operation that began after the write completed and completed before the read began); counters never exceed the computes started; on never-forgetting configurations compute increments are exact and or_insert inserts once".into()],
@@ -181,9 +181,10 @@ pub fn check_spec(id: &str) -> Option<CheckSpec> {
       property: id.into(),
       level: "exploration",
       lanes: vec![
-        lane("cache/hist/expiry", crate::cache::hist::HistFamily { snapshots: false, faults: true }, 16_000, 2_000_000),
-        lane("cache/hist/expiry/no-faults", crate::cache::hist::HistFamily { snapshots: false, faults: false }, 8_000, 1_000_000),
-        lane("cache/hist/expiry+snapshots", crate::cache::hist::HistFamily { snapshots: true, faults: true }, 8_000, 1_000_000),
+        lane("cache/hist/expiry", crate::cache::hist::HistFamily { snapshots: false, faults: true, stale_focus: false }, 16_000, 2_000_000),
+        lane("cache/hist/expiry/no-faults", crate::cache::hist::HistFamily { snapshots: false, faults: false, stale_focus: false }, 8_000, 1_000_000),
+        lane("cache/hist/expiry+snapshots", crate::cache::hist::HistFamily { snapshots: true, faults: true, stale_focus: false }, 8_000, 1_000_000),
+        // (a focused lane HistFamily{stale_focus:true} exists but is not registered: see DESIGN.md section 9.2)
       ],
       assumptions: CACHE_ASSUME.iter().map(|s| s.to_string()).collect(),
       notes: vec!["exact sequential reference model (single driver): a read must miss when the whole operation lies at or after the entry's deadline and must hit (never-evicting caches) when it lies wholly before it".into()],
@@ -192,8 +193,8 @@ pub fn check_spec(id: &str) -> Option<CheckSpec> {
       property: id.into(),
       level: "exploration",
       lanes: vec![
-        lane("cache/hist/snapshots", crate::cache::hist::HistFamily { snapshots: true, faults: true }, 16_000, 2_000_000),
-        lane("cache/hist/snapshots/no-faults", crate::cache::hist::HistFamily { snapshots: true, faults: false }, 8_000, 1_000_000),
+        lane("cache/hist/snapshots", crate::cache::hist::HistFamily { snapshots: true, faults: true, stale_focus: false }, 16_000, 2_000_000),
+        lane("cache/hist/snapshots/no-faults", crate::cache::hist::HistFamily { snapshots: true, faults: false, stale_focus: false }, 8_000, 1_000_000),
       ],
       assumptions: CACHE_ASSUME.iter().map(|s| s.to_string()).collect(),
       notes: vec!["enumerations are judged key by key against the exact model; snapshot entries are read from the serialised form; the rebuilt cache is then driven further and finally settled and drained (capacity, current_cost)".into()],
@@ -343,7 +344,7 @@ pub fn replay(path: &str) -> i32 {
     "CH-SPMC" => run_family_replay(spmc(true, 2, true, true), &v),
     "CH-TOPIC" => run_family_replay(topic(true, 2, true, true, true), &v),
     "CACHE-CONC" => run_family_replay(cache(|_| {}), &v),
-    "CACHE-HIST" => run_family_replay(crate::cache::hist::HistFamily { snapshots: true, faults: true }, &v),
+    "CACHE-HIST" => run_family_replay(crate::cache::hist::HistFamily { snapshots: true, faults: true, stale_focus: false }, &v),
     "CACHE-POLICY" => run_family_replay(crate::cache::policy_seq::PolicyFamily, &v),
     "IOC" => run_family_replay(crate::ioc::IocFamily { container: crate::ioc::Where::Instance, faults: true, cycles: true }, &v),
     "LOG-PIPE" => run_family_replay(crate::logpipe::LogFamily { faults: true, stop_anytime: true }, &v),
